@@ -67,7 +67,7 @@ func (cs ChainStorage) FindConversionChain(crdName string, rule Rule) []Rule {
 
 		// Try only paths that starts from a similar FromVersion as in input rule.
 		for _, ruleToCheck := range chain.RulesWithSimilarFromVersion(rule) {
-			if ruleToCheck.ShortToVersion() == rule.ShortFromVersion() {
+			if VersionsMatched(ruleToCheck.ToVersion, rule.FromVersion) {
 				// Ignore loops.
 				continue
 			}
@@ -79,7 +79,7 @@ func (cs ChainStorage) FindConversionChain(crdName string, rule Rule) []Rule {
 					ToVersion:   nextRule.ToVersion,
 				}
 
-				if newRule.ShortToVersion() == rule.ShortFromVersion() {
+				if VersionsMatched(newRule.ToVersion, rule.FromVersion) {
 					// Ignore loops.
 					continue
 				}
